@@ -69,8 +69,22 @@ def _nonneg_by_form(t):
     return False
 
 
+CANON_SQRT = [False]  # contracts may ask for the argument of sqrt to be put in canonical polynomial form (mdvc/polyid.py)
+
+
 def r_sqrt(x, require=True):
     t = rterm(x)
+    if CANON_SQRT[0]:
+        from . import polyid
+
+        nonneg = _nonneg_by_form(t)
+        try:
+            t2 = polyid.canonical(t)
+        except Exception:
+            t2 = t
+        if nonneg and t2 is not t:
+            _ex().assume(t2 >= 0)  # the canonical form of a sum of squares
+        t = t2
     s = SQRT(t)
     if require and _nonneg_by_form(t):
         require = False
